@@ -3,8 +3,10 @@
 
   Property theorems only; helper lemmas are in CelloProofs/Lemmas/Mark.lean and MarkRec.lean.
   Model: Cello/Heap.lean (`fields`, `dfs` = GC_Mark_Item/GC_Recurse/GC_Mark_And_Recurse as a worklist, `gcMark` = the three
-  phases of GC_Mark, `sweep` = GC_Sweep, `collect`), Cello/HeapRec.lean (the same with the C call structure and a depth
-  budget).  Source-derived facts: CelloGen/GcMark.lean (leaf list of GC_Recurse, types declaring Mark, shape of
+  phases of GC_Mark, `sweep` = the unlink phase of GC_Sweep, `collect`; `gcMarkFrom` = GC_Mark on a registry whose mark bits
+  are partly set already, `release` = the release loop of GC_Sweep with Box_Del → del → GC_Rem_Ptr, `collectAll` = one whole
+  collection, `GState.run` = histories whose state includes the mark bits), Cello/HeapRec.lean (the mark phase with the C
+  call structure and a depth budget).  Source-derived facts: CelloGen/GcMark.lean (leaf list of GC_Recurse, types declaring Mark, shape of
   GC_Mark_And_Recurse, TLS callback, scan bound, texts of the Mark instances), entering through `Cfg.current`.
   All theorems hold for every implementation `S : MarkSet σ` of the mark bits (the driver runs the hash-set one).
 -/
@@ -14,6 +16,9 @@ import CelloGen.GcMark
 import CelloProofs.Lemmas.Mark
 import CelloProofs.Lemmas.MarkRec
 import CelloProofs.Lemmas.MarkRetype
+import CelloProofs.Lemmas.MarkBits
+import CelloProofs.Lemmas.MarkRelease
+import CelloProofs.Lemmas.MarkWitness
 
 namespace Cello.Heap
 
@@ -40,6 +45,22 @@ theorem C01_mark_instances_unconditional :
     CelloGen.GcMark.containerStructs = CelloGen.GcMark.containerStructsModelled ∧
     CelloGen.GcMark.typeWriters = CelloGen.GcMark.typeWritersModelled := by
   refine ⟨rfl, by decide, rfl, rfl⟩
+
+/-- **The life of a mark bit and the release path, as modelled** (generated facts): a new or re-inserted registry entry starts
+    unmarked (`GC_Set_Ptr`), the second loop of `GC_Sweep` — after the unlink loop, before the release loop — clears every bit,
+    `GC_Set` runs `GC_Mark(gc); GC_Sweep(gc);` with no handler in between (an exception that leaves `GC_Mark` skips the sweep);
+    the release loop of `GC_Sweep`, `Box_Del` (deletes its target), `del` (→ `rem(current(GC), ·)`), the two branches of
+    `GC_Rem_Ptr` (free list, then registry) and which container destructors `destruct` their embedded elements are the ones
+    `Cello.Heap.release` / `owns` were written against.  Whether `GC_Mark` clears the bits before it starts is NOT fixed here:
+    it enters the theorems as `CelloGen.GcMark.markClearsFirst`. -/
+theorem C01_collector_state_as_modelled :
+    CelloGen.GcMark.markBitLife = (true, true, true) ∧
+    CelloGen.GcMark.releaseLoop = CelloGen.GcMark.releaseLoopModelled ∧
+    CelloGen.GcMark.boxDel = CelloGen.GcMark.boxDelModelled ∧
+    CelloGen.GcMark.delBy = CelloGen.GcMark.delByModelled ∧
+    CelloGen.GcMark.remPtr = CelloGen.GcMark.remPtrModelled ∧
+    CelloGen.GcMark.elementDestructors = CelloGen.GcMark.elementDestructorsModelled :=
+  ⟨rfl, rfl, rfl, rfl, rfl, rfl⟩
 
 section main
 variable {σ : Type} (S : MarkSet σ) (c : Cfg) (h : Heap)
@@ -87,10 +108,15 @@ theorem C01_roots_of_each_kind (thread : Obj) (stack : List Word) (w : Word) :
   rintro ⟨e, hl, hr⟩
   exact List.mem_append_right _ (List.mem_append_left _ (mem_rootAddrs hl hr))
 
-/-- **T1 `collect_safe`.** After `GC_Mark; GC_Sweep`, every registered object reachable from thread-local storage,
-    from a root-registered entry or from a stack word is still registered, with the same contents and root flag, and is
-    not on the pending (to be finalised and freed) list. Root-registered entries are never swept, reachable or not. -/
-theorem C01_collect_safe (wf : h.WF) (thread : Obj) (stack : List Word) (a : Addr)
+/-- **T1 `sweep_safe`: the mark phase and the unlink phase of the sweep, on a registry whose mark bits are clear.**  After
+    `GC_Mark` and the first two loops of `GC_Sweep`, every registered object reachable from thread-local storage, from a
+    root-registered entry or from a stack word — along a chain of REGISTERED objects: `Points` reads the registry, as
+    `GC_Mark_Item` does; an object allocated with `new_raw` (or otherwise unregistered) in the middle of a path is not
+    traced unless it is handed to the callback by the Mark instance of a registered holder — is still registered, with the
+    same contents and root flag, and is not on the pending (to be finalised and freed) list.  Root-registered entries are
+    never swept, reachable or not.  What the release loop then does, and what happens when mark bits are already set, is
+    `C01_collect_safe_partial`. -/
+theorem C01_sweep_safe (wf : h.WF) (thread : Obj) (stack : List Word) (a : Addr)
     (hr : Reachable c h (rootWords c h thread stack) a) :
     (collect S c h thread stack).1.lookup a = h.lookup a ∧ (h.lookup a).isSome = true ∧
       a ∉ (collect S c h thread stack).2 := by
@@ -160,26 +186,233 @@ theorem C01_gcMark_mono (thread : Obj) (s1 s2 : List Word) (hsub : ∀ w ∈ s1,
 
 end main
 
-/-- **C01 over histories.** For every sequence of allocations, stores into registered objects (pointer stores, container
-    insertions and removals: any new contents), RE-TYPING operations (`assign` between containers — the target takes
-    over the source's element / key / value types —, `copy`, `resize(…, 0)`), changes of thread-local storage and of the
-    stack, explicit deletions and collection points, starting from any well-formed registry: at every collection of the history, every object
-    reachable at that moment from thread-local storage, a root-registered entry or a stack word stays registered with
-    unchanged contents and is not put on the pending list; and the registry is well formed afterwards. -/
-theorem C01_history_safe {σ : Type} (S : MarkSet σ) (c : Cfg) (ops : List HOp) (s0 : HState) (wf : s0.heap.WF)
-    (hok : ∀ op ∈ ops, op.ok) :
-    (HState.run S c ops s0).1.heap.WF ∧
-    ∀ ev ∈ (HState.run S c ops s0).2, ∀ a,
+/-! ### the whole collection: mark bits that are already set, and the release loop -/
+
+section whole
+variable {σ : Type} (S : MarkSet σ) (c : Cfg) (h : Heap)
+
+/-- **The mark phase from bits that are already set** (the `marked` field of a registry entry survives when an exception
+    leaves `GC_Mark`: `GC_Sweep`, which clears it, is skipped).  `GC_Mark` then sets exactly: the bits that were set, and the
+    bits of the registered objects reachable from the roots THROUGH ENTRIES WHOSE BIT WAS CLEAR — the root loop skips a marked
+    root entry and `GC_Mark_Item` does not trace an entry it finds marked. -/
+theorem C01_mark_exact_from (wf : h.WF) (thread : Obj) (stack : List Word) (m0 : σ) (a : Addr) :
+    S.mem a (gcMarkFrom S c h thread stack m0) = true ↔
+      S.mem a m0 = true ∨ ReachableUnmarked c h (fun x => S.mem x m0) (rootWords c h thread stack) a :=
+  gcMarkFrom_iff S c h wf thread stack m0 a
+
+/-- … and the sweep frees exactly the registered, non-root entries whose bit was clear and that are not reachable through
+    entries whose bit was clear.  With no bit set this is `C01_sweep_exact`. -/
+theorem C01_sweep_exact_from (wf : h.WF) (thread : Obj) (stack : List Word) (m0 : σ) (a : Addr) :
+    a ∈ (collectAll S c h thread stack m0).pending ↔
+      ∃ e, h.lookup a = some e ∧ e.root = false ∧ S.mem a m0 = false ∧
+        ¬ ReachableUnmarked c h (fun x => S.mem x m0) (rootWords c h thread stack) a := by
+  rw [collectAll_pending]; exact collectFrom_pending_iff S c h wf thread stack m0 a
+
+/-- with no bit set, reachability through unmarked entries is reachability -/
+theorem C01_unmarked_is_reachable (roots : List Word) (a : Addr) :
+    ReachableUnmarked c h (fun _ => false) roots a ↔ Reachable c h roots a :=
+  reachableUnmarked_none roots a
+
+/-- **The release loop** (`dealloc(destruct(item))` for every item of the free list; `Box_Del` → `del` → `GC_Rem_Ptr`, which
+    finalises a target it finds on the free list OR IN THE REGISTRY; container destructors destruct embedded elements):
+    when no entry the sweep frees owns an entry that stays registered, only items of the pending list are finalised and the
+    registry is left as the unlink phase left it.  The nesting budget of the model never runs out (for every heap, with or
+    without the hypothesis): each nested destructor is preceded by the removal of an item from the free list or of an entry
+    from the registry. -/
+theorem C01_release_within_pending (thread : Obj) (stack : List Word) (m0 : σ)
+    (hbox : boxExclusive S c h thread stack m0 = true) :
+    (collectAll S c h thread stack m0).heap = (collectFrom S c h thread stack m0).1 ∧
+    (∀ x ∈ (collectAll S c h thread stack m0).finalised, x ∈ (collectAll S c h thread stack m0).pending) ∧
+    (collectAll S c h thread stack m0).exhausted = false := by
+  have hx : ownsSurvivor S h (gcMarkFrom S c h thread stack m0) = false := by simpa [boxExclusive] using hbox
+  obtain ⟨r1, r2⟩ := release_within_pending h (collectFrom S c h thread stack m0).1 (collectFrom S c h thread stack m0).2
+    (ownsSurvivor_false S h hx)
+  exact ⟨r1, r2, collectAll_bounded S c h thread stack m0⟩
+
+theorem C01_release_bounded (thread : Obj) (stack : List Word) (m0 : σ) :
+    (collectAll S c h thread stack m0).exhausted = false :=
+  collectAll_bounded S c h thread stack m0
+
+/-- **Box's ownership contract implies the decidable hypothesis.**  "No registered object that is reachable from the roots is
+    owned by an unreachable object" (a Box owns its target; a container owns the targets of its embedded Boxes) gives
+    `boxExclusive = true` on a registry whose mark bits are clear. -/
+theorem C01_box_contract (wf : h.WF) (thread : Obj) (stack : List Word)
+    (hc : ∀ b v, v ∈ h.ownsAt b → Reachable c h (rootWords c h thread stack) v → Reachable c h (rootWords c h thread stack) b) :
+    boxExclusive S c h thread stack S.empty = true :=
+  boxExclusive_of_contract S c h wf thread stack hc
+
+/-- **T1 `collect_safe` for one WHOLE collection — partial.**  `GC_Mark`, `GC_Sweep` including its release loop.  Every
+    registered object reachable from thread-local storage, a root-registered entry or a stack word (along registered objects)
+    is still registered afterwards with unchanged contents, was not put on the pending list and was not finalised,
+    UNDER TWO EXPLICIT HYPOTHESES:
+    * `hclean` — no mark bit is set when the collection begins.  Not provable from the code as it is: a mark phase that an
+      exception leaves keeps its bits (known finding KF-C01-stale-marks, `C01_collect_safe_stale_refuted`); it holds along
+      histories in which no exception leaves a mark phase, or once `GC_Mark` clears the bits first (`C01_history_safe_partial`).
+    * `hbox` — no entry the sweep frees owns an entry that stays registered.  This is Box's ownership contract (a Box deletes its
+      target when it dies), a restriction of the property, not a defect: `C01_box_contract` derives it from "no reachable
+      object is owned by an unreachable one"; without it `C01_collect_safe_box_refuted`.
+    The full statement is `C01_collect_safe_statement`. -/
+theorem C01_collect_safe_partial (wf : h.WF) (thread : Obj) (stack : List Word) (m0 : σ) (a : Addr)
+    (hr : Reachable c h (rootWords c h thread stack) a)
+    (hclean : ∀ x, S.mem x m0 = false)
+    (hbox : boxExclusive S c h thread stack m0 = true) :
+    (collectAll S c h thread stack m0).heap.lookup a = h.lookup a ∧ (h.lookup a).isSome = true ∧
+      a ∉ (collectAll S c h thread stack m0).pending ∧ a ∉ (collectAll S c h thread stack m0).finalised := by
+  have hreg : (h.lookup a).isSome = true := by
+    cases hr with
+    | root _ hreg => exact hreg
+    | step _ _ hreg => exact hreg
+  have hm : S.mem a (gcMarkFrom S c h thread stack m0) = true := by
+    rw [gcMarkFrom_iff S c h wf]
+    right
+    have : (fun x => S.mem x m0) = fun _ => false := funext hclean
+    rw [this]
+    exact (reachableUnmarked_none _ _).mpr hr
+  obtain ⟨e1, e2, e3⟩ := collectAll_keeps_marked S c h thread stack m0 a hm hbox
+  exact ⟨e1, hreg, e2, e3⟩
+
+end whole
+
+/-- the full statement of `collect_safe` for one whole collection: no hypothesis on the mark bits that are set when it begins,
+    none on what the freed objects own -/
+def C01_collect_safe_statement : Prop :=
+  ∀ (h : Heap), h.WF → ∀ (thread : Obj) (stack : List Word) (marked : List Addr) (a : Addr),
+    Reachable Cfg.current h (rootWords Cfg.current h thread stack) a →
+      a ∉ (collectAll listSet Cfg.current h thread stack (seed listSet marked)).pending ∧
+      a ∉ (collectAll listSet Cfg.current h thread stack (seed listSet marked)).finalised
+
+/-- **Refuted (Box's ownership contract, an exclusion): `collect_safe` without `hbox`.**  4096 ↦ a root-registered Ref to the
+    Probe at 4160, 4224 ↦ a Box on the same Probe that nothing refers to.  One collection on clear mark bits: the Probe is
+    marked and stays off the pending list; the Box is swept; the release loop runs `Box_Del`, `del` finds the Probe IN THE
+    REGISTRY and finalises it — a reachable, root-referenced object (witness corpus/gcmark_box_shared_target.ops). -/
+theorem C01_collect_safe_box_refuted :
+    boxHeap.WF ∧ Reachable Cfg.current boxHeap (rootWords Cfg.current boxHeap emptyThread []) 4160 ∧
+    4160 ∈ (collectAll listSet Cfg.current boxHeap emptyThread [] (seed listSet [])).finalised ∧
+    4160 ∉ (collectAll listSet Cfg.current boxHeap emptyThread [] (seed listSet [])).pending ∧
+    boxExclusive listSet Cfg.current boxHeap emptyThread [] (seed listSet []) = false ∧
+    ¬ C01_collect_safe_statement := by
+  obtain ⟨h1, h2, h3⟩ := boxHeap_collect
+  refine ⟨boxHeap_wf, boxHeap_reach, h1, h2, h3, ?_⟩
+  intro hs
+  exact (hs boxHeap boxHeap_wf emptyThread [] [] 4160 boxHeap_reach).2 h1
+
+/-- **Refuted (known finding KF-C01-stale-marks, not repaired): `collect_safe` without `hclean`.**  4096 ↦ a root-registered
+    Ref that points to the Probe at 4224, 4160 ↦ an (empty) heap Tuple on the stack; the bits of 4096 and 4160 are still set
+    from a mark phase that an exception left.  The root loop of `GC_Mark` skips the marked root entry, `GC_Mark_Item` skips the
+    marked Tuple: the Probe — referenced directly by a root-registered entry — is not marked and is swept.  No entry owns
+    anything here (`hbox` holds).  With the bits cleared first the Probe is kept. -/
+theorem C01_collect_safe_stale_refuted :
+    staleHeap2.WF ∧ Reachable Cfg.current staleHeap2 (rootWords Cfg.current staleHeap2 emptyThread [4160]) 4224 ∧
+    4224 ∈ (collectAll listSet Cfg.current staleHeap2 emptyThread [4160] (seed listSet [4096, 4160])).pending ∧
+    boxExclusive listSet Cfg.current staleHeap2 emptyThread [4160] (seed listSet [4096, 4160]) = true ∧
+    4224 ∉ (collectAll listSet Cfg.current staleHeap2 emptyThread [4160] (seed listSet [])).pending ∧
+    ¬ C01_collect_safe_statement := by
+  refine ⟨staleHeap2_wf, staleHeap2_reach, staleHeap2_swept,
+    boxExclusive_of_no_owner listSet _ _ _ _ _ staleHeap2_no_owner, staleHeap2_kept, ?_⟩
+  intro hs
+  exact (hs staleHeap2 staleHeap2_wf emptyThread [4160] [4096, 4160] 4224 staleHeap2_reach).1 staleHeap2_swept
+
+/-! ### histories -/
+
+/-- the hypothesis on a collection event under which the release loop stays within the pending list -/
+def GEvent.exclusive {σ : Type} (S : MarkSet σ) (c : Cfg) (ev : GEvent) : Bool :=
+  boxExclusive S c ev.before.heap ev.before.thread ev.before.stack (seed S ev.started)
+
+/-- **C01 over histories — partial.**  The state of a history is the registry, thread-local storage, the stack AND THE MARK
+    BITS of the registry entries.  Operations: allocations, stores into registered objects (pointer stores, container
+    insertions and removals: any new contents), re-typing operations (`assign` between containers, `copy`, `resize(…, 0)`),
+    changes of thread-local storage and of the stack, explicit deletions, collections that run to completion, collections
+    whose mark phase is left by an exception after any number of marking events (`GOp.raise`: the bits set so far stay, the
+    sweep is skipped), registry rehashes (which clear the bits).  `cf` says whether `GC_Mark` clears the bits before it starts.
+    If `cf = true` (the repaired code), or if no bit is set initially and no exception leaves a mark phase (`GOp.completes`),
+    then from any well-formed registry: the registry stays well formed, every completed collection starts with all bits
+    clear, and every object reachable at that moment from thread-local storage, a root-registered entry or a stack word is
+    not put on the pending list, stays registered — and, at every collection at which no freed entry owns a surviving one
+    (`GEvent.exclusive`, Box's ownership contract), is not finalised by the release loop and keeps its contents.
+    The full statement is `C01_history_safe_statement cf`; refuted for the code as it is (`cf = false`) by
+    `C01_stale_marks_refuted`, and for either `cf` without the ownership hypothesis by `C01_box_shared_target_refuted`. -/
+theorem C01_history_safe_partial {σ : Type} (S : MarkSet σ) (c : Cfg) (cf : Bool) (ops : List GOp) (s0 : GState)
+    (wf : s0.heap.WF) (hok : ∀ op ∈ ops, op.ok)
+    (hclean : cf = true ∨ (s0.stale = [] ∧ ∀ op ∈ ops, op.completes = true)) :
+    (GState.run S c cf ops s0).1.heap.WF ∧
+    ∀ ev ∈ (GState.run S c cf ops s0).2, ev.started = [] ∧ ∀ a,
       Reachable c ev.before.heap (rootWords c ev.before.heap ev.before.thread ev.before.stack) a →
-        a ∉ ev.pending ∧
-        (collect S c ev.before.heap ev.before.thread ev.before.stack).1.lookup a = ev.before.heap.lookup a ∧
-        (ev.before.heap.lookup a).isSome = true := by
-  obtain ⟨h1, h2⟩ := run_events S c ops s0 wf hok
+        a ∉ ev.pending ∧ (ev.before.heap.lookup a).isSome = true ∧
+        (ev.exclusive S c = true → a ∉ ev.finalised ∧ ev.after.lookup a = ev.before.heap.lookup a) := by
+  obtain ⟨h1, h2⟩ := grun_events S c cf ops s0 wf hok hclean
   refine ⟨h1, ?_⟩
-  intro ev hev a hr
-  obtain ⟨hwf, hp⟩ := h2 ev hev
-  obtain ⟨e1, e2, e3⟩ := C01_collect_safe S c ev.before.heap hwf ev.before.thread ev.before.stack a hr
-  exact ⟨by rw [hp]; exact e3, e1, e2⟩
+  intro ev hev
+  obtain ⟨hwf, hs0, hp, hf, ha⟩ := h2 ev hev
+  refine ⟨hs0, ?_⟩
+  intro a hr
+  have hsw := C01_sweep_safe S c ev.before.heap hwf ev.before.thread ev.before.stack a hr
+  refine ⟨?_, hsw.2.1, ?_⟩
+  · rw [hp, collectAll_pending]; exact hsw.2.2
+  · intro hex
+    have hbox : boxExclusive S c ev.before.heap ev.before.thread ev.before.stack S.empty = true := by
+      simpa [GEvent.exclusive, hs0, seed_nil] using hex
+    obtain ⟨e1, _, _, e4⟩ := C01_collect_safe_partial S c ev.before.heap hwf ev.before.thread ev.before.stack S.empty a hr
+      S.mem_empty hbox
+    exact ⟨by rw [hf]; exact e4, by rw [ha]; exact e1⟩
+
+/-- the full statement over histories, for a collector whose `GC_Mark` clears the bits first (`cf = true`) or not -/
+def C01_history_safe_statement (cf : Bool) : Prop :=
+  ∀ (ops : List GOp) (s0 : GState), s0.heap.WF → s0.stale = [] → (∀ op ∈ ops, op.ok) →
+    ∀ ev ∈ (GState.run listSet Cfg.current cf ops s0).2, ∀ a,
+      Reachable Cfg.current ev.before.heap (rootWords Cfg.current ev.before.heap ev.before.thread ev.before.stack) a →
+        a ∉ ev.pending ∧ a ∉ ev.finalised
+
+/-- **Refuted (known finding KF-C01-stale-marks, not repaired): histories in which an exception leaves a mark phase.**
+    Start: 4096 ↦ a root-registered Ref (empty), 4160 ↦ a heap Tuple whose only item (4288) has been deleted by hand
+    (KF-C01-dangling-tuple-item), 4224 ↦ a Probe; the Tuple and the Probe are on the stack; no bit is set.
+    1. a collection: the root loop marks 4096, the stack scan marks 4160, `Tuple_Mark` hands 4288 to `GC_Mark_And_Recurse`,
+       which calls `GC_Recurse` on the freed block — outside the model (`.ub`); on the real machine `type_of` throws ValueError
+       on the `0xDeadCe110` fill.  The exception leaves `GC_Mark` after two marking events: no sweep, both bits stay (`GOp.raise 2`);
+    2. the program catches it, empties the Tuple, stores the Probe into the root Ref and drops it from the stack;
+    3. the next collection: both roots are skipped as already marked, the Probe — referenced DIRECTLY by a root-registered
+       entry — is put on the pending list.  (Witness corpus/kf_c01_stale_marks.ops, with a Mark instance that throws.)
+    With the bits cleared at the start of `GC_Mark` (`cf = true`: the repair) the same history keeps the Probe. -/
+theorem C01_stale_marks_refuted :
+    staleStart.heap.WF ∧ staleStart.stale = [] ∧ (∀ op ∈ staleOps, op.ok) ∧
+    markEvents Cfg.current staleStart.heap staleStart.thread staleStart.stack [] = [4096, 4160, 4224] ∧
+    (∀ d, (level listSet Cfg.current staleStart.heap (d + 2)).item 4160 [] = .ub) ∧
+    (∃ ev ∈ (GState.run listSet Cfg.current false staleOps staleStart).2,
+      Reachable Cfg.current ev.before.heap (rootWords Cfg.current ev.before.heap ev.before.thread ev.before.stack) 4224 ∧
+      4224 ∈ ev.pending ∧ ev.started = [4096, 4160] ∧ ev.exclusive listSet Cfg.current = true) ∧
+    (∀ ev ∈ (GState.run listSet Cfg.current true staleOps staleStart).2, 4224 ∉ ev.pending) ∧
+    ¬ C01_history_safe_statement false := by
+  have hex : ∃ ev ∈ (GState.run listSet Cfg.current false staleOps staleStart).2,
+      Reachable Cfg.current ev.before.heap (rootWords Cfg.current ev.before.heap ev.before.thread ev.before.stack) 4224 ∧
+      4224 ∈ ev.pending ∧ ev.started = [4096, 4160] ∧ ev.exclusive listSet Cfg.current = true := by
+    rw [staleRun_events false]
+    refine ⟨_, List.mem_cons_self, staleHeap2_reach, staleHeap2_swept, rfl, ?_⟩
+    exact boxExclusive_of_no_owner listSet _ _ _ _ _ staleHeap2_no_owner
+  refine ⟨staleHeap_wf, rfl, staleOps_ok, staleHeap_events, ?_, hex, ?_, ?_⟩
+  · intro d
+    exact tuple_unregistered_item_ub listSet Cfg.current staleHeap staleHeap_wf (by decide) (by decide) (by decide)
+      4160 4288 [] false rfl rfl d
+  · intro ev hev
+    rw [staleRun_events true] at hev
+    simp only [List.mem_cons, List.not_mem_nil, or_false] at hev
+    subst hev
+    exact staleHeap2_kept
+  · intro hs
+    obtain ⟨ev, hev, hr, hp, _, _⟩ := hex
+    exact (hs staleOps staleStart staleHeap_wf rfl staleOps_ok ev hev 4224 hr).1 hp
+
+/-- **Refuted (Box's ownership contract, an exclusion): histories without `GEvent.exclusive`**, whether `GC_Mark` clears the
+    bits first or not: one collection on `boxHeap` (a garbage Box on a Probe that a root-registered Ref refers to). -/
+theorem C01_box_shared_target_refuted (cf : Bool) : ¬ C01_history_safe_statement cf := by
+  intro hs
+  have hrun : (GState.run listSet Cfg.current cf [.base .collect] ⟨boxHeap, emptyThread, [], []⟩).2 =
+      [⟨⟨boxHeap, emptyThread, [], []⟩, [],
+        (collectAll listSet Cfg.current boxHeap emptyThread [] (seed listSet [])).pending,
+        (collectAll listSet Cfg.current boxHeap emptyThread [] (seed listSet [])).finalised,
+        (collectAll listSet Cfg.current boxHeap emptyThread [] (seed listSet [])).heap⟩] := by
+    cases cf <;> simp [GState.run, GState.step]
+  have := hs [.base .collect] ⟨boxHeap, emptyThread, [], []⟩ boxHeap_wf rfl (by intro op hop; simp at hop; subst hop; trivial)
+    _ (by rw [hrun]; exact List.mem_cons_self) 4160 boxHeap_reach
+  exact this.2 boxHeap_collect.1
 
 /-! ### containers whose element / key / value types change during their life -/
 
@@ -220,7 +453,8 @@ theorem C01_assign_retypes (c : Cfg) (h : Heap) {ty ty' : String} (hl : c.isLeaf
 /-- **A re-typed container as the sole path.**  In any state with a well-formed registry: a container at `a` (whatever
     its contents and element types — e.g. a Table constructed as String → Int) is `assign`ed from the container at `b`;
     `b` is deleted; only `a` is held by the stack.  Then every registered object `x` that the SOURCE presented to the
-    marker (a Ref value or key of `b`) survives the next collection: it is not put on the pending list and is still
+    marker (a Ref value or key of `b`) survives the mark and unlink phases of the next collection (on clear mark bits; the
+    release loop and bits that are already set: `C01_collect_safe_partial`): it is not put on the pending list and is still
     registered afterwards. -/
 theorem C01_retyped_sole_path_safe {σ : Type} (S : MarkSet σ) (c : Cfg) (s : HState) (wf : s.heap.WF)
     (a b x : Addr) (ty ty' : String) (es0 es : List Obj) (ra rb : Bool) (hab : a ≠ b) (hxb : x ≠ b)
@@ -248,7 +482,7 @@ theorem C01_retyped_sole_path_safe {σ : Type} (S : MarkSet σ) (c : Cfg) (s : H
     rw [fields_cont c hty.1 hty.2]; rw [fields_cont c hty'.1 hty'.2] at hx; exact hx
   have hreach : Reachable c h2 (rootWords c h2 s.thread [a]) x :=
     .step (.root (by simp [rootWords]) (by rw [la]; rfl)) ⟨_, la, hfx⟩ lx
-  obtain ⟨e1, _, e3⟩ := C01_collect_safe S c h2 wf2 s.thread [a] x hreach
+  obtain ⟨e1, _, e3⟩ := C01_sweep_safe S c h2 wf2 s.thread [a] x hreach
   rw [hrun]
   refine ⟨?_, rfl, ?_⟩
   · intro ev hev
@@ -291,7 +525,7 @@ theorem C01_cached_leaf_flag_refuted :
     rw [remove_lookup_ne (by decide), write_isSome]; rfl
   have hreach : Reachable Cfg.current hNow (rootWords Cfg.current hNow thread [4096]) 4224 :=
     .step (.root (by simp [rootWords]) (by rw [la]; rfl)) ⟨_, la, by decide⟩ lx
-  refine ⟨hreach, ?_, (C01_collect_safe listSet Cfg.current hNow wfNow thread [4096] 4224 hreach).2.2⟩
+  refine ⟨hreach, ?_, (C01_sweep_safe listSet Cfg.current hNow wfNow thread [4096] 4224 hreach).2.2⟩
   rw [C01_sweep_exact listSet Cfg.current hSeen (remove_wf retypeHeap_wf _) thread [4096] 4224]
   refine ⟨⟨.raw "Probe" [7], false⟩, rfl, rfl, ?_⟩
   intro hr
@@ -392,16 +626,31 @@ theorem C01_fieldsL_mem (c : Cfg) (es : List Obj) (e : Obj) (he : e ∈ es) (w :
     · subst h; exact .inl hw
     · exact .inr (ih h)
 
-/-- **C01 for the code in /repo now.** -/
+/-- **C01 for the code in /repo now**, one collection: mark phase and unlink phase on clear mark bits. -/
 theorem C01_current_source {σ : Type} (S : MarkSet σ) (h : Heap) (wf : h.WF) (thread : Obj) (stack : List Word) (a : Addr)
     (hr : Reachable Cfg.current h (rootWords Cfg.current h thread stack) a) :
     (collect S Cfg.current h thread stack).1.lookup a = h.lookup a ∧ (h.lookup a).isSome = true ∧
       a ∉ (collect S Cfg.current h thread stack).2 :=
-  C01_collect_safe S Cfg.current h wf thread stack a hr
+  C01_sweep_safe S Cfg.current h wf thread stack a hr
+
+/-- **C01 for the code in /repo now, over histories with the mark bits in the state** — with whatever `GC_Mark` does to the
+    bits before it starts in the CURRENT source (`CelloGen.GcMark.markClearsFirst`, re-extracted on every run: `false` for the
+    code as audited, `true` once the proposed repair is in).  In the first case the hypothesis "no exception leaves a mark
+    phase" is needed (`C01_stale_marks_refuted`), in the second it is not. -/
+theorem C01_current_source_history {σ : Type} (S : MarkSet σ) (ops : List GOp) (s0 : GState)
+    (wf : s0.heap.WF) (hok : ∀ op ∈ ops, op.ok)
+    (hclean : CelloGen.GcMark.markClearsFirst = true ∨ (s0.stale = [] ∧ ∀ op ∈ ops, op.completes = true)) :
+    ∀ ev ∈ (GState.run S Cfg.current CelloGen.GcMark.markClearsFirst ops s0).2, ∀ a,
+      Reachable Cfg.current ev.before.heap (rootWords Cfg.current ev.before.heap ev.before.thread ev.before.stack) a →
+        a ∉ ev.pending ∧ (ev.exclusive S Cfg.current = true → a ∉ ev.finalised ∧ ev.after.lookup a = ev.before.heap.lookup a) := by
+  intro ev hev a hr
+  obtain ⟨_, h2⟩ := C01_history_safe_partial S Cfg.current CelloGen.GcMark.markClearsFirst ops s0 wf hok hclean
+  obtain ⟨e1, _, e3⟩ := (h2 ev hev).2 a hr
+  exact ⟨e1, e3⟩
 
 /-! ### non-vacuity and the repaired defects, on concrete heaps -/
 
-/-- non-vacuity: the hypotheses of `C01_collect_safe` hold on the demo heap for an object three hops from a stack word,
+/-- non-vacuity: the hypotheses of `C01_sweep_safe` hold on the demo heap for an object three hops from a stack word,
     through an Array element, a Ref and a self-containing heap Tuple; and for one reachable only from thread-local storage -/
 example : Reachable Cfg.current demoHeap (rootWords Cfg.current demoHeap demoThread [12, 4100, 4096]) 4224 := by
   have r0 : Reachable Cfg.current demoHeap (rootWords Cfg.current demoHeap demoThread [12, 4100, 4096]) 4096 :=
@@ -423,6 +672,24 @@ example : ∀ op ∈ [HOp.alloc 4416 ⟨.raw "Ref" [4096], false⟩, .write 4224
   intro op hop
   simp only [List.mem_cons, List.not_mem_nil, or_false] at hop
   rcases hop with h | h | h | h | h | h | h <;> subst h <;> simp [HOp.ok]
+
+/-- non-vacuity of the hypotheses of `C01_collect_safe_partial` / `C01_history_safe_partial`: a registry with a Box that is used
+    within its contract (root-registered Ref → Box → Probe, plus garbage) is well formed, the Probe is reachable through the
+    Box, "no reachable object is owned by an unreachable one" holds, hence `boxExclusive`; no bit is set in the empty set; and
+    a history with a store, a rehash and two completed collections meets `GOp.ok` and `GOp.completes`; the event of a
+    collection on that registry meets `GEvent.exclusive` -/
+example : okBoxHeap.WF ∧ Reachable Cfg.current okBoxHeap (rootWords Cfg.current okBoxHeap emptyThread []) 4224 ∧
+    boxExclusive listSet Cfg.current okBoxHeap emptyThread [] listSet.empty = true ∧ (∀ x, listSet.mem x listSet.empty = false) :=
+  ⟨okBoxHeap_wf, okBoxHeap_target_reach,
+    C01_box_contract listSet Cfg.current okBoxHeap okBoxHeap_wf emptyThread [] okBoxHeap_contract, listSet.mem_empty⟩
+
+example : (∀ op ∈ [GOp.base (.write 4288 (.raw "Probe" [4224])), .base .collect, .rehash, .base (.setStack [4288]), .base .collect],
+      op.ok ∧ op.completes = true) ∧
+    GEvent.exclusive listSet Cfg.current ⟨⟨okBoxHeap, emptyThread, [], []⟩, [], [], [], okBoxHeap⟩ = true := by
+  refine ⟨?_, C01_box_contract listSet Cfg.current okBoxHeap okBoxHeap_wf emptyThread [] okBoxHeap_contract⟩
+  intro op hop
+  simp only [List.mem_cons, List.not_mem_nil, or_false] at hop
+  rcases hop with h | h | h | h | h <;> subst h <;> simp [GOp.ok, HOp.ok, GOp.completes]
 
 /-- **Refuted (F25, repaired by fc3452e).** With thread-local storage handed to `GC_Mark_Item` only, the object at 4288 —
     reachable, but only from thread-local storage — is not marked and ends up on the pending list. -/
@@ -463,7 +730,9 @@ theorem C01_fixed_stack_refuted {σ : Type} (S : MarkSet σ) (d : Nat) :
     On a well-formed heap whose Tuple holds the address of an object that has been deleted by hand, the marker with the
     call structure of GC.c does not complete for any budget ≥ 2: `GC_Mark_And_Recurse` finds the pointer unregistered and
     calls `GC_Recurse` on it — memory the model knows nothing about (on the real machine: a freed block, witness
-    corpus/kf_c01_dangling_tuple.ops).  Reachable objects are still never reclaimed (`C01_collect_safe` has no such hypothesis). -/
+    corpus/kf_c01_dangling_tuple.ops).  When the freed block has not been reused, `type_of` throws ValueError there: the exception
+    LEAVES `GC_Mark` with the mark bits set so far, `GC_Sweep` is skipped, and the NEXT collection reclaims objects reachable only
+    through the stale-marked entries — `C01_stale_marks_refuted` (known finding KF-C01-stale-marks). -/
 theorem C01_dangling_tuple_item_refuted {σ : Type} (S : MarkSet σ) (d : Nat) :
     danglingHeap.WF ∧ ¬ danglingHeap.CallbackSafe ∧
     (level S Cfg.current danglingHeap (d + 2)).item 4096 S.empty = .ub := by
